@@ -470,9 +470,51 @@ def c02_float64(a):
         assert abs(mp.mpf(float(rf)) - rm) <= tol * (1 + abs(rm)), f"C02 float64 {a['m']} on {a['sig']} stored {st}: {rf} vs {str(rm)[:30]}"
 
 
+@check
+def c02_float64_binary(a):
+    """float64 result of a two-vector operation vs the 50-digit result on EXACTLY the same stored binary inputs; operands are
+    well-conditioned by construction (a highly relativistic booster is only used in tau storage, where its mass is an input)"""
+    import vector
+    fam, mp = ctx()
+    s1, s2 = [float(x) for x in a["st1"]], [float(x) for x in a["st2"]]
+    vf, wf = C.make(C.FLOATFAM, "g", tuple(a["s1"]), s1), C.make(C.FLOATFAM, "m", tuple(a["s2"]), s2)
+    vm, wm = C.make(fam, "g", tuple(a["s1"]), [mp.mpf(x) for x in s1]), C.make(fam, "m", tuple(a["s2"]), [mp.mpf(x) for x in s2])
+    rf, rm = getattr(vf, a["m"])(wf), getattr(vm, a["m"])(wm)
+    if isinstance(rm, vector.Vector):
+        cf, cm = [float(x) for x in C.cart(rf)], C.cart(rm)
+    else:
+        cf, cm = [float(rf)], [rm]
+    scale = max(abs(y) for y in cm) + mp.mpf("1e-300")
+    err = max(abs(mp.mpf(x) - y) for x, y in zip(cf, cm)) / scale
+    assert err <= mp.mpf(a.get("rel", "2e-12")), \
+        f"C02 float64 {a['m']} of {a['s1']} {s1} by/with {a['s2']} {s2}: relative error {float(err):.2e} (float64 {cf}, exact {[str(y)[:20] for y in cm]})"
+
+
 def search_c02(seed, tier, limit=5):
     r = C.rng(seed, "c02")
     out, n = [], 0
+    # float64 clause for two-vector operations, incl. highly relativistic boosters given by (.., mass)
+    import math
+    pts4 = points(4, r, 2)
+    for s2 in C.SIG4:
+        gammas = (1.3, 30.0, 640.0) if s2[-1] == "tau" else (1.3, 2.5)
+        for g in gammas:
+            d = [r.uniform(0.2, 1.0) * sg for sg in (1, -1, 1)]
+            nd = math.sqrt(sum(x * x for x in d))
+            m_ = r.choice([0.105, 0.938, 5.0])
+            pmag = m_ * math.sqrt(g * g - 1.0)
+            P = [pmag * x / nd for x in d] + [m_ * g]
+            st2 = C.cart_to_stored(s2, P)
+            if s2[-1] == "tau":
+                st2[-1] = m_                      # the mass is an exact input of tau storage
+            for s1 in (C.SIG4 if tier == "thorough" else r.sample(C.SIG4, 2)):
+                st1 = C.cart_to_stored(s1, [float(x) for x in pts4[0]])
+                for m in ("boost_p4", "boostCM_of_p4", "boost", "dot", "add"):
+                    if m == "add" and g > 3:
+                        continue
+                    n += 1
+                    run(c02_float64_binary, {"m": m, "s1": list(s1), "s2": list(s2), "st1": [repr(x) for x in st1], "st2": [repr(x) for x in st2],
+                                             "rel": "2e-12" if g < 100 else "1e-11"}, out, limit)
     for dim in (2, 3, 4):
         pts = points(dim, r, 2)
         pts = pts[:4] + pts[-2:] if tier == "quick" else pts
@@ -787,9 +829,43 @@ def c13_laws(a):
             assert t_from_tau >= 0 and not mp.isnan(t_from_tau), "t derived from tau is negative or NaN"
 
 
+@check
+def c13_float64_ranges(a):
+    """the documented RANGES at float64 (the precision users compute in) on boundary operands: exactly parallel / antiparallel pairs,
+    axis-aligned vectors: deltaangle in [0, pi] and never NaN, phi/deltaphi in [-pi, pi], theta in [0, pi], costheta in [-1, 1]"""
+    import math
+    v = C.obj_vec("g", tuple(a["s1"]), C.cart_to_stored(tuple(a["s1"]), [float(x) for x in a["p1"]]))
+    w = C.obj_vec("m", tuple(a["s2"]), C.cart_to_stored(tuple(a["s2"]), [float(x) for x in a["p2"]]))
+    pi = math.pi
+    for name, val, lo, hi in (("phi", v.phi, -pi, pi), ("deltaphi", v.deltaphi(w), -pi, pi), ("deltaphi (reversed)", w.deltaphi(v), -pi, pi)):
+        assert lo <= float(val) <= hi, f"{name} = {float(val)!r} outside [{lo}, {hi}] for {a['p1']} as {a['s1']} / {a['p2']} as {a['s2']}"
+    if len(a["s1"]) >= 2:
+        for name, val, lo, hi in (("theta", v.theta, 0.0, pi), ("costheta", v.costheta, -1.0, 1.0), ("deltaangle", v.deltaangle(w), 0.0, pi),
+                                  ("deltaangle (reversed)", w.deltaangle(v), 0.0, pi)):
+            assert lo <= float(val) <= hi, f"{name} = {float(val)!r} outside [{lo}, {hi}] for {a['p1']} as {a['s1']} / {a['p2']} as {a['s2']}"
+
+
 def search_c13(seed, tier, limit=5):
     r = C.rng(seed, "c13")
     out, n = [], 0
+    # float64 boundary pairs (exactly antiparallel / parallel, several directions) for EVERY pair of coordinate systems
+    dirs = [[0.0, 1.0, 2.0], [1.0, 2.0, 2.0], [1.0, 1.0, 1.0], [3.0, 4.0, 5.0], [-2.0, 0.5, 0.25], [0.3, -0.7, 1.9], [1.0, 0.0, 0.0], [0.0, -1.0, 0.0]]
+    dirs += [[r.uniform(-3, 3) for _ in range(3)] for _ in range(4 if tier == "quick" else 24)]
+    for dim in (2, 3, 4):
+        for s1 in C.SIGS[dim]:
+            for s2 in C.SIGS[dim]:
+                for dvec in dirs:
+                    if dim >= 3 and dvec[0] == 0.0 and dvec[1] == 0.0:
+                        continue
+                    if (abs(dvec[0]) + abs(dvec[1]) == 0.0) or (dim == 2 and dvec[0] == 0.0 and dvec[1] == 0.0):
+                        continue
+                    for k in (-1.0, -2.5, 1.0, 0.5):
+                        if k > 0 and tier == "quick" and dvec is not dirs[0]:
+                            continue
+                        p1 = dvec[:min(dim, 3)] + ([10.0] if dim == 4 else [])
+                        p2 = [k * x for x in dvec[:min(dim, 3)]] + ([12.0] if dim == 4 else [])
+                        n += 1
+                        run(c13_float64_ranges, {"s1": list(s1), "s2": list(s2), "p1": [repr(x) for x in p1], "p2": [repr(x) for x in p2]}, out, limit)
     for dim in (2, 3, 4):
         pts = points(dim, r, 3)
         if dim == 4:   # add spacelike and near-lightlike points
